@@ -15,6 +15,25 @@ CHECKS = {
              '(H_monotone_bnd) is checked per case, not proved. Trusted: Coq kernel + vm_compute + PrimFloat, harness.',
         technique='Coq proof (induction + lia) over a hand-written Gallina model + in-Coq correspondence (vm_compute) with the real block_pairs()',
         design='5/C06'),
+    'C16': dict(
+        text='Theorems (Coq, rational geometry, unbounded): the covers_bounds decision is true iff the source footprint lies inside the '
+             'reference footprint on all four sides (right/bottom to within the 1e-6 px float slack); containment / same grid is '
+             'always accepted, any larger overhang always rejected. Tie: the decision model is evaluated in Coq bit-exactly (PrimFloat) '
+             'and in Q on the windows rasterio produced for seeded file pairs and compared with covers_bounds; an independent '
+             'exact-fraction containment oracle is compared with RasterPairReader/RasterFuse/RasterCompare construction.',
+        note='rasterio window()/bounds and WarpedVRT bounds are observed oracles (exact on the dyadic 75 % of cases, checked in Coq); '
+             'CRS re-projection is exercised only (south-up variant).',
+        technique='Coq proof over Q (field/lra) + in-Coq correspondence with covers_bounds on real datasets',
+        design='5/C16'),
+    'C20': dict(
+        text='Theorems (Coq, unbounded): bounded_window_slices is well-formed and equals window-intersect-dataset for EVERY integer '
+             'window; read_window = pixels inside + nodata outside; write_window crops and geo-places; write-then-read; any sequence '
+             'of block writes refines the last-writer-wins pixel map and is order-free for disjoint windows. Tie: the model is run in '
+             'Coq on the same files/windows as from_rio_dataset/to_rio_dataset (6 encodings, all overlap relations, exact equality).',
+        note='GDAL read/write/mask I/O is trusted to return what is stored (H_codec); float geo-transform placement of the written '
+             'array is given to the model as an integer origin.',
+        technique='Coq proof (lia, induction over write sequences) + in-Coq correspondence with real file I/O',
+        design='5/C20'),
 }
 
 NOT_YET = 'check not built yet in this revision (planned: see DESIGN.md section 5)'
